@@ -21,6 +21,7 @@ import (
 	"verifharness/hx"
 
 	"github.com/alicebob/miniredis/v2"
+	goredis "github.com/go-redis/redis/v8"
 	"github.com/projecteru2/core/store/etcdv3/embedded"
 	"github.com/projecteru2/core/store/etcdv3/meta"
 	redisstore "github.com/projecteru2/core/store/redis"
@@ -290,7 +291,11 @@ func (e *env) runCase(ctx context.Context, k *kase) {
 	defer mr.Close()
 	cfg := types.Config{MaxConcurrency: 64}
 	cfg.Redis = types.RedisConfig{Addr: mr.Addr()}
-	r, err := redisstore.New(cfg, nil)
+	// no automatic command retries by go-redis (a re-sent SETNX whose first reply was late would
+	// report "exists" to the registrant that in fact created the key)
+	rcli := goredis.NewClient(&goredis.Options{Addr: mr.Addr(), MaxRetries: -1, ReadTimeout: 10 * time.Second,
+		WriteTimeout: 10 * time.Second, PoolTimeout: 15 * time.Second})
+	r, err := redisstore.VerifNewWithClient(rcli, cfg)
 	if err != nil {
 		panic(err)
 	}
